@@ -160,7 +160,7 @@ func (e *env) startListener(cfg Cfg, bind string) (*lst, error) {
 	for try := 0; try < 3; try++ {
 		hc := toHTTPConfig(name, cfg)
 		hc.HostBind = bind
-		port = strconv.Itoa(rig.FreePort())
+		port = strconv.Itoa(pickPort())
 		hc.PortBind = port
 		h, err = e.r.StartHTTP(hc)
 		if err == nil {
@@ -576,4 +576,23 @@ func portOwnership(port string) (ours, foreign int) {
 		}
 	}
 	return
+}
+
+var portSeq atomic.Int64
+
+// pickPort returns a port that is free on every local address right now. It is taken from
+// below the ephemeral range so that no outgoing connection of another process on this
+// (shared, busy) machine can grab it between the probe and the listener's bind, spread by
+// process id so that parallel workers do not collide; rig.FreePort is the fallback.
+func pickPort() int {
+	for i := 0; i < 64; i++ {
+		p := 10000 + int((int64(os.Getpid())*7919+portSeq.Add(1)*104729)%22000)
+		l, err := net.Listen("tcp", ":"+strconv.Itoa(p))
+		if err != nil {
+			continue
+		}
+		l.Close()
+		return p
+	}
+	return rig.FreePort()
 }
